@@ -45,7 +45,7 @@ fn nodes_of(v: &[BddNode]) -> Value {
 }
 
 #[derive(Clone, Debug)]
-enum Step { Fwd, Relay(usize), Recv(usize) }
+enum Step { Fwd, Relay(usize), Recv(usize), Hangup }
 
 fn scheduled(id: String, seed: u64, max_nodes: usize, schedule: &[Step]) -> Value {
     let (s0, r0) = unbounded();
@@ -53,8 +53,11 @@ fn scheduled(id: String, seed: u64, max_nodes: usize, schedule: &[Step]) -> Valu
     let stream: Vec<BddNode> = r0.try_iter().collect();
     let (s1, r1): (Sender<BddNode>, Receiver<BddNode>) = unbounded();
     let (s2, r2): (Sender<BddNode>, Receiver<BddNode>) = unbounded();
+    // channel lengths are read through sender clones: a receiver clone kept by the harness would keep the channel connected
+    // after the receiving store has been dropped (Step::Hangup)
+    let s2len = s2.clone();
     let mut relay = Bdd::with_sender_receiver(s2, r1);
-    let mut recv = Bdd::with_receiver(r2.clone());
+    let mut recv: Option<Bdd> = Some(Bdd::with_receiver(r2));
     let mut next = 0usize;
     let mut steps = Vec::new();
     for st in schedule {
@@ -68,11 +71,19 @@ fn scheduled(id: String, seed: u64, max_nodes: usize, schedule: &[Step]) -> Valu
             }
             Step::Relay(h) => {
                 let found = relay.recv(Term(*h));
-                steps.push(json!({"a": "relay", "h": h, "found": found, "nodes": nodes_json(&relay), "c1": s1.len(), "c2": r2.len()}));
+                steps.push(json!({"a": "relay", "h": h, "found": found, "nodes": nodes_json(&relay), "c1": s1.len(), "c2": s2len.len()}));
             }
             Step::Recv(h) => {
-                let found = recv.recv(Term(*h));
-                steps.push(json!({"a": "recv", "h": h, "found": found, "nodes": nodes_json(&recv), "c1": s1.len(), "c2": r2.len()}));
+                if let Some(rv) = recv.as_mut() {
+                    let found = rv.recv(Term(*h));
+                    steps.push(json!({"a": "recv", "h": h, "found": found, "nodes": nodes_json(rv), "c1": s1.len(), "c2": s2len.len()}));
+                }
+            }
+            Step::Hangup => {
+                // the last store of the chain goes away while the producer and the relay carry on
+                if recv.take().is_some() {
+                    steps.push(json!({"a": "hangup"}));
+                }
             }
         }
     }
@@ -84,11 +95,13 @@ fn scheduled(id: String, seed: u64, max_nodes: usize, schedule: &[Step]) -> Valu
     }
     let last = prod.nodes.len() + 5;
     let f1 = relay.recv(Term(last));
-    steps.push(json!({"a": "relay", "h": last, "found": f1, "nodes": nodes_json(&relay), "c1": s1.len(), "c2": r2.len()}));
-    let f2 = recv.recv(Term(last));
-    steps.push(json!({"a": "recv", "h": last, "found": f2, "nodes": nodes_json(&recv), "c1": s1.len(), "c2": r2.len()}));
+    steps.push(json!({"a": "relay", "h": last, "found": f1, "nodes": nodes_json(&relay), "c1": s1.len(), "c2": s2len.len()}));
+    if let Some(rv) = recv.as_mut() {
+        let f2 = rv.recv(Term(last));
+        steps.push(json!({"a": "recv", "h": last, "found": f2, "nodes": nodes_json(rv), "c1": s1.len(), "c2": s2len.len()}));
+    }
     json!({"kind": "frontend", "id": id, "mode": "scheduled", "prod": nodes_json(&prod), "stream": nodes_of(&stream), "steps": steps,
-           "final_relay": nodes_json(&relay), "final_recv": nodes_json(&recv)})
+           "hung": recv.is_none(), "final_relay": nodes_json(&relay), "final_recv": recv.as_ref().map(nodes_json).unwrap_or(json!([]))})
 }
 
 fn threads(id: String, seed: u64, max_nodes: usize) -> Value {
@@ -180,7 +193,7 @@ fn threads(id: String, seed: u64, max_nodes: usize) -> Value {
         steps.push(json!({"a": "recv", "seq": seq, "h": h, "found": f, "nodes": nodes_json(&recv)}));
         seq += 1;
     }
-    json!({"kind": "frontend", "id": id, "mode": "threads", "prod": nodes_of(&prod_nodes), "stream": nodes_of(&prod_nodes[2..]), "steps": steps,
+    json!({"kind": "frontend", "id": id, "mode": "threads", "hung": false, "prod": nodes_of(&prod_nodes), "stream": nodes_of(&prod_nodes[2..]), "steps": steps,
            "final_relay": final_relay, "final_recv": nodes_json(&recv), "channel": (["unbounded", "bounded1", "bounded2"][(seed % 3) as usize]),
            "channel2": (["unbounded", "bounded1", "bounded3"][((seed / 3) % 3) as usize])})
 }
@@ -208,7 +221,7 @@ pub fn main(args: &[String]) {
     };
     // (1) every schedule of length <= 3 over {fwd, relay poll h, recv poll h} for a 3-node stream
     let m = 3usize;
-    let mut alphabet = vec![Step::Fwd];
+    let mut alphabet = vec![Step::Fwd, Step::Hangup];
     for h in 0..(m + 3) {
         alphabet.push(Step::Relay(h));
         alphabet.push(Step::Recv(h));
@@ -237,11 +250,16 @@ pub fn main(args: &[String]) {
     for k in 0..nrand {
         let mn = rng.gen_range(3..=14);
         let len = rng.gen_range(5..=40);
-        let sched: Vec<Step> = (0..len).map(|_| match rng.gen_range(0..10) {
+        let mut sched: Vec<Step> = (0..len).map(|_| match rng.gen_range(0..10) {
             0..=4 => Step::Fwd,
             5..=7 => Step::Relay(rng.gen_range(0..mn + 4)),
             _ => Step::Recv(rng.gen_range(0..mn + 4)),
         }).collect();
+        // in a sixth of the runs the last store of the chain is dropped somewhere in the middle
+        if k % 6 == 5 {
+            let at = rng.gen_range(0..sched.len());
+            sched.insert(at, Step::Hangup);
+        }
         let seed: u64 = rng.gen();
         let id = format!("s{}", k);
         let id2 = id.clone();
@@ -257,6 +275,9 @@ pub fn main(args: &[String]) {
             let burst = [1, 2, 7, 31, 32, 33, 63, 64, 65, 80][rng.gen_range(0..10)];
             for _ in 0..burst {
                 sched.push(Step::Fwd);
+            }
+            if k % 3 == 2 && sched.len() > 100 && !sched.iter().any(|s| matches!(s, Step::Hangup)) {
+                sched.push(Step::Hangup);
             }
             for _ in 0..rng.gen_range(0..3) {
                 let h = if rng.gen_bool(0.5) { rng.gen_range(0..mn + 4) } else { sched.len() / 2 + rng.gen_range(0..6) };
